@@ -462,8 +462,8 @@ static int64_t Slice_Arg(int part, size_t n, var arg) {
   int64_t a = c_int(arg);
   
   if (part isnt 2) {
-    a = a < 0 ? n+a : a;
-    a = a > n ? n   : a;
+    a = a < 0 ? (int64_t)n+a : a;
+    a = a > (int64_t)n ? (int64_t)n : a;
     a = a < 0 ? 0   : a;
   }
   
